@@ -19,6 +19,13 @@ ANGLE = {
     "6": ("Considered covered already: everything simple. This round's theme: semantic drift in a HELPER that the property depends on "
           "indirectly (a function in another module called by the anchored code), or a change of a DEFAULT / enum mapping / dispatch "
           "table so that one rarely used option silently behaves like another."),
+    "7": ("Considered covered already: everything simple, numeric tolerances, dtypes, hidden state, size-dependent fast paths, "
+          "truthiness slips, enum/dispatch drift, helper drift, x/y translation and scaling. This round's theme: the EDGES of the "
+          "property's own quantifier - the smallest valid inputs (n = 2, 3, 4 points; one or two knees; a single cluster; an empty "
+          "list where allowed), degenerate-but-valid shapes (all-equal y, a single step, knees adjacent to each other or to the "
+          "curve ends, thresholds at the extremes of their stated range, size parameters 0 / 1 / n / n+1), and the interaction of two "
+          "options that are each fine alone. The change must still look like a reasonable commit (a guard moved, a loop bound "
+          "'simplified', an early return added, a special case 'unified' with the general one)."),
 }[rnd]
 props = [json.loads(l) for l in open("/verif/properties.jsonl")]
 for p in props:
